@@ -35,7 +35,7 @@ class Operand:
 def decision_value(st, expr):
     """the value `expr` had when the criteria were evaluated (first recorded eval), else a fresh name"""
     for (e, pos, env, line, res) in st.builder.evals:
-        if e is expr and isinstance(res, I.Sym):
+        if (e is expr or getattr(e, 'copied_from', e) is getattr(expr, 'copied_from', expr)) and isinstance(res, I.Sym):
             return res.t
     return z3.Int('ev_unevaluated_%d' % id(expr))
 
@@ -65,13 +65,9 @@ def operand_of(st, v, hyps):
         return Operand('imm', z3.IntVal(v), v)
     if isinstance(v, I.SObj) and v.cls.name in ('Lo', 'Hi') and isinstance(v.fields.get('expr'), I.SObj) \
             and v.fields['expr'].cls.name == 'SymExpr' and st.item.fields.get('is_auipc_jump') is not True:
-        # %hi / %lo of an arbitrary inner expression: the split (contracts/relocate.py) of the inner decision-time value
-        x = decision_value(st, v.fields['expr'])
-        if v.cls.name == 'Hi':
-            u = ((x + 2048) / 4096) % (2 ** 20)
-            return Operand('imm', z3.If(u >= 2 ** 19, u - 2 ** 20, u), v)
-        u = x % 4096
-        return Operand('imm', z3.If(u >= 2048, u - 4096, u), v)
+        # %hi / %lo of an arbitrary inner expression: the value its REAL eval returned when the criteria looked at it
+        # (recorded by world.install_symexpr_dispatch); never evaluated: any value
+        return Operand('imm', decision_value(st, v), v)
     if isinstance(v, I.SObj) and v.cls.name in ('Lo', 'Hi', 'Offset', 'Position'):
         # a real label-dependent expression (the jalr half of a far call / tail): its final value is not the decision-time one
         return Operand('imm', z3.Int('final_value_of_%s_%d' % (v.cls.name, id(v))), v)
